@@ -99,6 +99,9 @@ def body(c):
     if len(cases) > case_cap:
         cases = rng.sample(cases, case_cap)
         exhaustive = False
+    for k, wd in enumerate(gqlgen.wrapping_docs()):
+        for w in worlds:
+            rand_cases.append({"id": 0, "flavour": "static", "doc": wd, "opIndex": 1, "vars": [], "world": w, "schedule": []})
     cases += rand_cases
     for i, x in enumerate(cases):
         x["id"] = i + 1
